@@ -544,6 +544,255 @@ def run_cov(ctx, corr, exe):
             corr.disagree("cov", payload, got, want, "cov-mat verdict")
 
 
+
+# ------------------------------------------------------------------ adjustment-result readers, gama-g3 input (sanitizer stream)
+
+def byte_mutation(rng, b):
+    m = bytearray(b)
+    for _ in range(rng.choice([1, 1, 2, 4])):
+        if not m:
+            break
+        p = rng.randrange(len(m))
+        op = rng.random()
+        if op < 0.4:
+            m[p] = rng.choice(b"<>/\"'=& \n\x00\xff0123456789-+.eE")
+        elif op < 0.6:
+            del m[p]
+        elif op < 0.8:
+            m.insert(p, rng.choice(b"<>/\"'=& 019-.e"))
+        else:
+            q = rng.randrange(len(m))
+            a, z = min(p, q), max(p, q)
+            m[a:z] = m[a:z] * 2 if z - a < 300 else b""
+    return bytes(m)
+
+
+NUM_RE = re.compile(rb">\s*(-?\d[\d.eE+-]*)\s*<")
+HUGE = [b"1e999", b"-1e999", b"1e300", b"99999999999999999999", b"2147483647", b"-2147483648", b"-1", b"0", b"", b"x", b"1e", b"NaN", b"1 1", b"0x10"]
+
+
+def xml_line_mutation(rng, b):
+    """structural mutation of a line-oriented result / g3 XML; returns (bytes, what)"""
+    lines = b.split(b"\n")
+    kind = rng.choice(["dup", "dup", "del", "del", "num", "num", "dimband", "dimband", "swap", "child", "trunc-line", "tagname"])
+    idx = [i for i, l in enumerate(lines) if l.strip()]
+    if not idx:
+        return b, "empty"
+    if kind in ("dup", "del"):
+        pref = [i for i in idx if re.search(rb"<(flt|ind|id|x|y|z|dim|band|point|orientation|original-index|cov-mat|vector|obs|dx|height|n|e|u)\b", lines[i])]
+        i = rng.choice(pref or idx)
+        if kind == "dup":
+            n = rng.choice([1, 1, 2, 5])
+            lines[i:i] = [lines[i]] * n
+            return b"\n".join(lines), f"duplicate x{n}: {lines[i][:40]!r}"
+        gone = lines.pop(i)
+        return b"\n".join(lines), f"remove: {gone[:40]!r}"
+    if kind == "num":
+        cand = [i for i in idx if NUM_RE.search(lines[i])]
+        if cand:
+            i = rng.choice(cand)
+            ms = list(NUM_RE.finditer(lines[i]))
+            m = rng.choice(ms)
+            v = rng.choice(HUGE)
+            lines[i] = lines[i][:m.start(1)] + v + lines[i][m.end(1):]
+            return b"\n".join(lines), f"number -> {v!r} in {lines[i][:50]!r}"
+    if kind == "dimband":
+        cand = [i for i in idx if b"<dim>" in lines[i] or b"<band>" in lines[i]]
+        if cand:
+            i = rng.choice(cand)
+            t = rng.choice([b"dim", b"band"])
+            v = rng.choice([b"0", b"1", b"2", b"5", b"40", b"-1", b"-7", b"100", b"3000", b"70000", b"2147483647", b"1.5", b""])
+            lines[i] = re.sub(rb"<" + t + rb">[^<]*</" + t + rb">", b"<" + t + b">" + v + b"</" + t + b">", lines[i])
+            return b"\n".join(lines), f"<{t.decode()}> := {v!r}"
+    if kind == "swap" and len(idx) > 2:
+        i, j = rng.sample(idx, 2)
+        lines[i], lines[j] = lines[j], lines[i]
+        return b"\n".join(lines), "swap two lines"
+    if kind == "child":
+        cand = [i for i in idx if b"<point>" in lines[i] or b"<point " in lines[i] or b"<orientation>" in lines[i]]
+        if cand:
+            i = rng.choice(cand)
+            extra = rng.choice([b"<x>1</x>", b"<z>2</z><z>3</z>", b"<id>Q</id>", b"<y>5</y>", b"<X>1</X>", b"<point><id>N</id></point>", b"<ind>7</ind>", b"<flt>1</flt>"])
+            lines[i] = lines[i].replace(b">", b">" + extra, 1)
+            return b"\n".join(lines), f"extra child {extra!r}"
+    if kind == "tagname":
+        i = rng.choice(idx)
+        m = re.search(rb"<([a-zA-Z][\w-]*)", lines[i])
+        if m:
+            lines[i] = lines[i].replace(m.group(1), rng.choice([b"flt", b"ind", b"point", b"bogus", b"dim", b"cov-mat", b"id"]))
+            return b"\n".join(lines), "rename a tag"
+    i = rng.choice(idx)
+    lines[i] = lines[i][:rng.randrange(len(lines[i]) + 1)]
+    return b"\n".join(lines), "truncate a line"
+
+
+def result_bases(ctx, n_gen, n_arch):
+    """gama-local's own result XML/HTML for generated and archived networks"""
+    gl = ctx.build_gama(sanitize=True) / "gama-local"
+    rng = ctx.rng
+    srcs = []
+    files = sorted(_glob.glob(str(ctx.repo / "tests" / "gama-local" / "input" / "*.gkf")))
+    small = [f for f in files if os.path.getsize(f) < 9000]
+    for f in rng.sample(small, min(n_arch, len(small))):
+        srcs.append((os.path.basename(f), Path(f).read_bytes()))
+    tries = 0
+    while len(srcs) < n_arch + n_gen and tries < 6 * n_gen:
+        tries += 1
+        srcs.append((f"generated{tries}", doc_text(gen_network(rng)).encode()))
+    out = []
+    with tempfile.TemporaryDirectory(prefix="c11res_") as td:
+        for k, (name, data) in enumerate(srcs):
+            g, x, h = Path(td) / f"{k}.gkf", Path(td) / f"{k}.xml", Path(td) / f"{k}.html"
+            g.write_bytes(data)
+            band = rng.choice([(), ("--cov-band", "0"), ("--cov-band", "1"), ("--cov-band", "-1")])
+            try:
+                sh([str(gl), str(g), "--xml", str(x), "--html", str(h), "--text", "/dev/null"] + list(band), timeout=30)
+            except subprocess.TimeoutExpired:
+                continue
+            if x.exists() and b"<cov-mat>" in x.read_bytes():
+                out.append((name, x.read_bytes(), h.read_bytes() if h.exists() else None))
+    return out
+
+
+def reader_verdict(out, crash):
+    """oracle on one harness answer -> None or (what, site)"""
+    if crash is not None:
+        rc, err = crash
+        if rc == 88:
+            return ("does not terminate (10 s limit)", "reader")
+        m = re.search(r"SUMMARY: \w+: (\S+)", err or "")
+        fr = re.findall(r"#\d+ 0x[0-9a-f]+ in (\S+)", err or "")
+        site = next((x for x in fr if x.startswith("GNU_gama")), fr[0] if fr else "")
+        what = m.group(1) if m else ((re.search(r"runtime error: ([^\n]*)", err or "") or [None, "abnormal exit"])[1])
+        return (f"sanitizer report / abnormal exit rc={rc}: {what}", site)
+    O = [l for l in out if l.startswith("O ")]
+    if not O:
+        return ("no outcome from the harness", "harness")
+    t = O[0].split()
+    if t[1] == "exc":
+        return (f"exception {t[2]} leaves the reader (through the expat callback): diagnostic has no line", "reader handler")
+    if t[1] == "parser" and int(t[2]) < 1:
+        return (f"refused without a line number ({' '.join(t[:4])})", "reader")
+    return None
+
+
+def run_readers(ctx, corr):
+    rng = ctx.rng
+    d = ctx.build_gama(sanitize=True)
+    objs = sorted(_glob.glob(str(d / "CMakeFiles" / "libgama.dir" / "**" / "*.o"), recursive=True))
+    exe = ctx.build_cpp("c11_results", [ctx.verif / "harness" / "c11_results.cpp"], includes=[ctx.verif / "harness"], libs=objs + ["-lexpat"])
+    t0 = time.time()
+    bases = result_bases(ctx, ctx.size(4, 30), ctx.size(4, 20))
+    items = []      # (op, label, bytes, expect_ok)
+    corpus = ctx.verif / "corpus" / "C11"
+    if corpus.exists():
+        for f in sorted(corpus.glob("result-*.xml")):
+            items.append(("xml", "corpus " + f.name, f.read_bytes(), False))
+        for f in sorted(corpus.glob("g3-*.xml")):
+            items.append(("g3", "corpus " + f.name, f.read_bytes(), False))
+    for name, x, h in bases:
+        items.append(("xml", f"result of {name}", x, True))
+        if h:
+            items.append(("html", f"html result of {name}", h, True))
+        cuts = range(len(x)) if ctx.thorough and len(x) < 6000 else sorted(rng.sample(range(len(x)), min(len(x), ctx.size(25, 600))))
+        for c in cuts:
+            items.append(("xml", f"result of {name} truncated at {c}", x[:c], False))
+        for _ in range(ctx.size(60, 900)):
+            m, what = xml_line_mutation(rng, x)
+            items.append(("xml", f"result of {name}: {what}", m, False))
+        for _ in range(ctx.size(15, 300)):
+            items.append(("xml", f"result of {name}: byte mutation", byte_mutation(rng, x), False))
+        if h:
+            for _ in range(ctx.size(8, 150)):
+                items.append(("html", f"html result of {name}: byte mutation", byte_mutation(rng, h), False))
+            for c in sorted(rng.sample(range(len(h)), min(len(h), ctx.size(6, 100)))):
+                items.append(("html", f"html result of {name} truncated at {c}", h[:c], False))
+    g3files = sorted(_glob.glob(str(ctx.repo / "tests" / "gama-g3" / "input" / "*.xml")))
+    for f in g3files:
+        b = Path(f).read_bytes()
+        nm = os.path.basename(f)
+        items.append(("g3", f"g3 {nm}", b, True))
+        for c in sorted(rng.sample(range(len(b)), min(len(b), ctx.size(8, 300)))):
+            items.append(("g3", f"g3 {nm} truncated at {c}", b[:c], False))
+        for _ in range(ctx.size(25, 500)):
+            m, what = xml_line_mutation(rng, b)
+            items.append(("g3", f"g3 {nm}: {what}", m, False))
+        for _ in range(ctx.size(8, 200)):
+            items.append(("g3", f"g3 {nm}: byte mutation", byte_mutation(rng, b), False))
+    cases = [[f"{op} {hexs(b)}"] for op, _, b, _ in items]
+    outs, crashes = run_cases(exe, cases, timeout=1500)
+    for i, (op, label, b, expect_ok) in enumerate(items):
+        corr.case(key=("reader", op, sha(b)) if len(b) > 200 else None,
+                  sample={"stream": "readers", "op": op, "label": label, "out": outs[i][:1]} if i < 1 else None)
+        corr.count(f"reader_{op}_docs")
+        O = [l for l in outs[i] if l.startswith("O ")]
+        if O:
+            corr.count(f"reader_{op}_" + O[0].split()[1])
+        v = reader_verdict(outs[i], crashes.get(i))
+        payload = {"stream": "readers", "op": op, "label": label, "doc": b.decode("utf-8", "replace") if len(b) < 30000 else None,
+                   "doc_hex": b.hex() if len(b) < 30000 else None}
+        if v:
+            det = crashes[i][1] if i in crashes else "\n".join(outs[i][-2:])
+            corr.fail(f"{op} reader: {v[0]} [{label}]", payload, v[1], (det[:2200] + "\n[...]\n" + det[-600:]) if len(det) > 2900 else det)
+        elif expect_ok and not (O and O[0].startswith("O ok")):
+            corr.fail(f"{op} reader refuses gama's own output [{label}]: {O[:1]}", payload, "reader", "\n".join(outs[i][-2:]))
+    n_harness = len(items)
+    # ---- the consumers of result files: compare-xyz, gama-local-deformation (sanitized executables)
+    cons = []
+    for name, x, h in bases[:ctx.size(3, 12)]:
+        for _ in range(ctx.size(10, 120)):
+            r = rng.random()
+            if r < 0.3:
+                m, what = x[:rng.randrange(len(x))], "truncated"
+            elif r < 0.8:
+                m, what = xml_line_mutation(rng, x)
+            else:
+                m, what = byte_mutation(rng, x), "byte mutation"
+            cons.append((rng.choice(["compare-xyz", "gama-local-deformation"]), f"result of {name}: {what}", x, m))
+    if corpus.exists():
+        for f in sorted(corpus.glob("result-*.xml")):
+            if bases:
+                for tool in ("compare-xyz", "gama-local-deformation"):
+                    cons.append((tool, "corpus " + f.name, bases[0][1], f.read_bytes()))
+
+    def one(it):
+        tool, label, good, bad = it
+        with tempfile.TemporaryDirectory(prefix="c11cons_") as td:
+            a, b2 = Path(td) / "a.xml", Path(td) / "b.xml"
+            a.write_bytes(good)
+            b2.write_bytes(bad)
+            args = [str(d / tool), str(a), str(b2)] + (["--text", "/dev/null"] if tool == "gama-local-deformation" else [])
+            try:
+                rc, out, err = sh(args, timeout=10)
+            except subprocess.TimeoutExpired:
+                return it, "timeout", ""
+            return it, rc, err
+    with concurrent.futures.ThreadPoolExecutor(max_workers=16) as ex:
+        res = list(ex.map(one, cons))
+    for (tool, label, good, bad), rc, err in res:
+        corr.case(key=("consumer", tool, sha(bad)))
+        corr.count(f"consumer_{tool}_rc_{rc}")
+        what = None
+        if rc == "timeout":
+            what = "does not terminate (10 s)"
+        elif SAN_MARK.search(err) or rc in (86, 87):
+            m = re.search(r"SUMMARY: \w+: (\S+)", err)
+            what = f"sanitizer report rc={rc}: " + (m.group(1) if m else (re.search(r"runtime error: ([^\n]*)", err) or [0, "?"])[1])
+        elif isinstance(rc, int) and rc < 0:
+            what = f"killed by signal {-rc}" + (" (uncaught exception: terminate)" if "terminate called" in err else "")
+        if what:
+            fr = re.findall(r"#\d+ 0x[0-9a-f]+ in (\S+)", err)
+            site = next((x for x in fr if x.startswith("GNU_gama")), tool)
+            corr.fail(f"{tool}: {what} [{label}]", {"stream": "consumers", "tool": tool, "label": label,
+                                                   "doc": bad.decode("utf-8", "replace") if len(bad) < 30000 else None,
+                                                   "doc_hex": bad.hex() if len(bad) < 30000 else None,
+                                                   "good_hex": good.hex() if len(good) < 30000 else None},
+                      site, (err[:2200] + "\n[...]\n" + err[-600:]) if len(err) > 2900 else err)
+    corr.count("consumer_runs", len(cons))
+    ctx.log(f"reader stream: {n_harness} documents through LocalNetworkAdjustmentResults/DataParser, {len(cons)} consumer runs, "
+            f"{len(bases)} base results, {time.time() - t0:.1f}s")
+
+
 # ------------------------------------------------------------------ executable-level search / oracle
 
 SAN_MARK = re.compile(r"ERROR: AddressSanitizer|runtime error:|ERROR: LeakSanitizer|AddressSanitizer:DEADLYSIGNAL|UndefinedBehaviorSanitizer")
@@ -757,6 +1006,7 @@ def correspond(ctx, corr):
     ctx.log(f"literal correspondence: {n} strings")
     run_cov(ctx, corr, exe)
     exec_oracle(ctx, corr, exec_inputs(ctx))
+    run_readers(ctx, corr)
     if corr.stats.get("outcome_parser", 0) < 20:
         corr.inconclusive.append("fewer than 20 refused documents in the event correspondence")
     if corr.stats.get("outcome_ok", 0) < 20:
